@@ -379,6 +379,10 @@ func (w *WAL) FirstIndex() (uint64, error) {
 	verifPoint("FirstIndex.afterClosedCheck")
 	s, release := w.acquireState()
 	defer release()
+	if s.isClosed() {
+		// Close completed after we checked above
+		return 0, ErrClosed
+	}
 	return s.firstIndex(), nil
 }
 
@@ -390,6 +394,10 @@ func (w *WAL) LastIndex() (uint64, error) {
 	verifPoint("LastIndex.afterClosedCheck")
 	s, release := w.acquireState()
 	defer release()
+	if s.isClosed() {
+		// Close completed after we checked above
+		return 0, ErrClosed
+	}
 	return s.lastIndex(), nil
 }
 
@@ -401,10 +409,19 @@ func (w *WAL) GetLog(index uint64, log *raft.Log) error {
 	verifPoint("GetLog.afterClosedCheck")
 	s, release := w.acquireState()
 	defer release()
+	if s.isClosed() {
+		// Close completed after we checked above
+		return ErrClosed
+	}
 	w.metrics.IncrementCounter("log_entries_read", 1)
 
 	raw, err := s.getLog(index)
 	if err != nil {
+		if w.checkClosed() != nil {
+			// Close raced with us and may have closed the files we were reading
+			// from. That's not a real read error.
+			return ErrClosed
+		}
 		return err
 	}
 	w.metrics.IncrementCounter("log_entry_bytes_read", uint64(len(raw.Bs)))
@@ -443,6 +460,10 @@ func (w *WAL) StoreLogs(logs []*raft.Log) error {
 
 	s, release := w.acquireState()
 	defer release()
+	if s.isClosed() {
+		// Close completed while we were waiting for the lock
+		return ErrClosed
+	}
 
 	// Verify monotonicity since we assume it
 	lastIdx := s.lastIndex()
@@ -553,6 +574,10 @@ func (w *WAL) DeleteRange(min uint64, max uint64) error {
 
 	s, release := w.acquireState()
 	defer release()
+	if s.isClosed() {
+		// Close completed while we were waiting for the lock
+		return ErrClosed
+	}
 
 	// Work out what type of truncation this is.
 	first, last := s.firstIndex(), s.lastIndex()
@@ -1000,7 +1025,12 @@ func (w *WAL) Close() error {
 	verifPoint("Close.locked")
 
 	// It doesn't matter if there is a rotation scheduled because runRotate will
-	// exist when it sees we are closed anyway.
+	// exist when it sees we are closed anyway. But a writer might be waiting for
+	// that rotation which will now never happen, wake it up so that it can find
+	// out we are closed.
+	if w.awaitRotate != nil {
+		close(w.awaitRotate)
+	}
 	w.awaitRotate = nil
 	// Awake and terminate the runRotate
 	close(w.triggerRotate)
